@@ -69,7 +69,13 @@ func ErrClass(err error) string {
 func TagDesc(d *DAG, id int, ann bool) ocispec.Descriptor {
 	desc := d.Nodes[id].Desc
 	if ann {
-		desc.Annotations = map[string]string{"verif.note": d.Nodes[id].Name}
+		// one shared map per node: a caller tagging the same descriptor value
+		// under several names hands the store the same annotations map each time
+		n := d.Nodes[id]
+		if n.TagAnn == nil {
+			n.TagAnn = map[string]string{"verif.note": n.Name}
+		}
+		desc.Annotations = n.TagAnn
 	}
 	return desc
 }
@@ -326,7 +332,7 @@ func ValidateLayout(dir string) string {
 	if idx.SchemaVersion != 2 {
 		return "index.json schemaVersion != 2"
 	}
-	if bad := ValidateBlobs(dir); bad != "" {
+	if bad := ValidateBlobsStrict(dir); bad != "" {
 		return bad
 	}
 	for _, m := range idx.Manifests {
@@ -339,6 +345,25 @@ func ValidateLayout(dir string) string {
 		}
 		if fi.Size() != m.Size {
 			return fmt.Sprintf("index.json entry %q records size %d, blob has %d", m.Annotations[ocispec.AnnotationRefName], m.Size, fi.Size())
+		}
+	}
+	return ""
+}
+
+// ValidateBlobsStrict additionally rejects any file under blobs/<alg>/ whose
+// name is not the digest of its content at all (e.g. a partial temporary file).
+func ValidateBlobsStrict(dir string) string {
+	if bad := ValidateBlobs(dir); bad != "" {
+		return bad
+	}
+	algs, _ := os.ReadDir(filepath.Join(dir, "blobs"))
+	for _, a := range algs {
+		want := map[string]int{"sha256": 64, "sha384": 96, "sha512": 128}[a.Name()]
+		ents, _ := os.ReadDir(filepath.Join(dir, "blobs", a.Name()))
+		for _, e := range ents {
+			if want == 0 || len(e.Name()) != want || strings.Trim(e.Name(), "0123456789abcdef") != "" {
+				return fmt.Sprintf("file blobs/%s/%s is not named by a digest of its content", a.Name(), trunc([]byte(e.Name()), 24))
+			}
 		}
 	}
 	return ""
